@@ -180,6 +180,17 @@ def run_op(op, pool=None):
     try:
         if o == "read":
             return _read_result(op)
+        if o == "poke":
+            # build a message, then change its list-valued attributes IN PLACE (legal Python on the
+            # caller's own object; no attribute is assigned).  Nothing else in the process may notice.
+            msg = _make(op["msg"])
+            res = _msg_result(msg)
+            for val in list(msg.__dict__.values()):
+                if isinstance(val, list) and val:
+                    val[0] = (val[0] + 1) % 256 if isinstance(val[0], int) else val[0]
+                    val.append(7)
+                    val.reverse()
+            return res
         if o in ("parse", "new", "cfgset", "cfgdel", "cfgpoll"):
             return _msg_result(_make(op))
         msg = pool[op["pool"]] if pool is not None else _make(op["msg"])
@@ -298,7 +309,7 @@ def _build_catalogue_body():
     from pyubx2.ubxtypes_configdb import UBX_CONFIG_DATABASE  # pylint: disable=import-outside-toplevel
 
     rng = core.stream(13, "catalogue")
-    ops, fam = [], {"parse": [], "aborted": [], "new": [], "cfg": [], "tp5": [], "mutate": [], "inspect": [], "variant": [], "read": [], "eqv": []}
+    ops, fam = [], {"parse": [], "aborted": [], "new": [], "cfg": [], "tp5": [], "mutate": [], "inspect": [], "variant": [], "read": [], "eqv": [], "arrays": []}
     pool_src = []
 
     def add(op, *families):
@@ -399,6 +410,17 @@ def _build_catalogue_body():
             eqv.append(len(group))
             if len(eqv) >= 24:
                 break
+    # messages with array-valued attributes built from keywords (nominal arrays), plain and "poked"
+    for e in cat:
+        if not e["arrays"] or e["typ"] is not None:
+            continue
+        for mode in e["modes"] or [0]:
+            clsb, midb = bytes([e["cls"]]), bytes([e["mid"]])
+            for kw in ({"version": 0}, {"version": 0, "numRfBlocks": 2}, {"version": 1, "numRfBlocks": 1}):
+                base = {"o": "new", "cls": enc(clsb), "id": enc(midb), "mode": mode, "kw": kw}
+                add(base, "new", "arrays")
+                add({"o": "poke", "msg": base}, "arrays")
+                add(base, "new", "arrays")
     # stream reads: mixed-protocol wires through UBXReader (SETPOLL included: same identity in both modes)
     for i in range(60):
         parts = []
@@ -444,6 +466,11 @@ def _build_catalogue_body():
         body = bytes(4) + kid.to_bytes(4, "little") + val
         add({"o": "parse", "hex": W.ubx_frame(0x06, 0x8B, body).hex(), "mm": 0, "val": 1, "pbf": 1}, "parse", "variant", "cfg")
         add({"o": "parse", "hex": W.ubx_frame(0x06, 0x8A, body).hex(), "mm": 1, "val": 1, "pbf": 1}, "parse", "variant", "cfg")
+    for nm in ("CFG_0x10fe0001", "CFG_0X10FE0001", "CFG_0x1011001b", "CFG_0X1011001B", "cfg_0x20fe0002"):
+        add({"o": "cfgset", "layers": 1, "txn": 0, "data": [[nm, enc(b"\x01")]]}, "cfg")
+        add({"o": "cfgdel", "layers": 2, "txn": 0, "keys": [nm]}, "cfg")
+        add({"o": "cfgpoll", "layer": 0, "pos": 0, "keys": [nm]}, "cfg")
+    add({"o": "parse", "hex": W.ubx_frame(0x06, 0x8B, bytes(4) + (0x1011001B).to_bytes(4, "little") + b"\x01").hex(), "mm": 0, "val": 1, "pbf": 1}, "parse", "cfg")
     add({"o": "cfgset", "layers": 1, "txn": 0, "data": [["CFG_NOT_A_KEY", 1]]}, "cfg", "aborted")
     add({"o": "cfgset", "layers": 1, "txn": 0, "data": [[keys[0][0], "wrong-type"]]}, "cfg", "aborted")
     add({"o": "cfgpoll", "layer": 0, "pos": 0, "keys": list(range(0x10000000, 0x10000000 + 65))}, "cfg", "aborted")
@@ -758,6 +785,28 @@ def execute(scn):
 # -------------------------------------------------------------------------------------------
 
 
+_LIBFUNCS = None
+
+
+def library_functions():
+    """Names of the functions / methods defined in pyubx2 (static list, sorted: deterministic)."""
+    global _LIBFUNCS  # pylint: disable=global-statement
+    if _LIBFUNCS is None:
+        import ast  # pylint: disable=import-outside-toplevel
+        import glob  # pylint: disable=import-outside-toplevel
+
+        names = set()
+        for fn in sorted(glob.glob(os.path.join(core.REPO_SRC, "pyubx2", "*.py"))):
+            if "ubxtypes_" in fn:
+                continue
+            with open(fn, encoding="utf-8") as fh:
+                for node in ast.walk(ast.parse(fh.read())):
+                    if isinstance(node, (ast.FunctionDef, ast.AsyncFunctionDef)):
+                        names.add(node.name)
+        _LIBFUNCS = sorted(names)
+    return _LIBFUNCS
+
+
 def _pick_ops(rng, cat, n, flavour):
     ops, fam = cat["ops"], cat["fam"]
     out = []
@@ -773,6 +822,11 @@ def _pick_ops(rng, cat, n, flavour):
             i = rng.choice(fam["variant"] + fam["tp5"])
         elif flavour == "mutate" and roll < 0.5:
             i = rng.choice(fam["mutate"])
+        elif flavour == "cfg" and roll < 0.7:
+            i = rng.choice(fam["cfg"])
+        elif flavour == "arrays" and roll < 0.7 and fam["arrays"]:
+            j = rng.randrange(len(fam["arrays"]))
+            i = fam["arrays"][min(max(j + rng.randrange(-3, 4), 0), len(fam["arrays"]) - 1)]
         elif flavour == "eqv" and roll < 0.7:
             # neighbouring entries of the equal-but-different-values family belong to one message
             j = rng.randrange(len(fam["eqv"]))
@@ -795,14 +849,17 @@ def generate(seed: int, tier: str = "quick") -> dict:
     cat = build_catalogue()
     r_cfg = core.stream(seed, "config")
     r_ops = core.stream(seed, "threads")
-    flavour = r_cfg.choice(("uniform", "family", "aborted", "variant", "mutate", "eqv"))
+    flavour = r_cfg.choice(("uniform", "uniform", "family", "family", "aborted", "variant", "variant", "mutate", "eqv", "arrays", "cfg"))
     if r_cfg.random() < 0.5:
         n = r_cfg.choice((5, 10, 20, 40, 80, 200))
         ops = _pick_ops(r_ops, cat, n, flavour)
         probes = [cat["ops"][i] for i in (cat["fam"]["tp5"][:1] + cat["fam"]["variant"][:: max(1, len(cat["fam"]["variant"]) // 12)][:12] + cat["fam"]["cfg"][:3])]
         return {"seed": seed, "mode": "history", "ops": ops + probes, "pool": cat["pool"], "flavour": flavour}
     nthreads = r_cfg.choice((2, 2, 3, 4))
+    kind = r_cfg.choice(("random", "random", "pct", "focus", "focus"))
     style = r_cfg.random()
+    if kind == "focus":
+        style *= 0.55  # races need the same (few) operations on several threads: shared or repeated op lists
     if style < 0.3:
         # all threads hammer the same few operations (shared definitions, shared variant selectors)
         base = _pick_ops(r_ops, cat, r_cfg.choice((2, 3, 5)), flavour)
@@ -817,12 +874,15 @@ def generate(seed: int, tier: str = "quick") -> dict:
             op_lists.append(seq)
     else:
         op_lists = [_pick_ops(r_ops, cat, r_cfg.choice((2, 4, 8, 16)), flavour) for _ in range(nthreads)]
-    kind = r_cfg.choice(("random", "random", "pct"))
     gran = "instruction" if r_cfg.random() < (0.25 if tier == "thorough" else 0.08) else "line"
     if kind == "random":
         policy = {"kind": "random", "p": r_cfg.choice((0.2, 0.05, 0.02, 0.005, 0.002))}
         if gran == "instruction":
             policy["p"] = policy["p"] / 5
+    elif kind == "focus":
+        # dense pre-emption inside ONE function of the library (drawn from all of them), sparse elsewhere:
+        # over a batch every function gets runs in which each of its lines is a likely switch point
+        policy = {"kind": "focus", "func": r_cfg.choice(library_functions()), "p_in": r_cfg.choice((0.3, 0.6)), "p": r_cfg.choice((0.0, 0.003))}
     else:
         policy = {"kind": "pct", "d": r_cfg.choice((1, 2, 3, 5)), "est": r_cfg.choice((300, 2000, 10000)) * (5 if gran == "instruction" else 1)}
     return {"seed": seed, "mode": "threads", "threads": {"ops": op_lists, "policy": policy, "granularity": gran}, "pool": cat["pool"], "flavour": flavour}
